@@ -582,6 +582,7 @@ func vfH_dial_logic() {
 			tc.in = append(tc.in, out...)
 			tc.cut = len(tc.in)
 			vfBodyConn = tc
+			tc.strictClose = true
 		}
 		return out
 	}
